@@ -56,6 +56,12 @@ pub fn asset_name_exchange(exchange: ExchangeId, internal: &str) -> String {
     }
 }
 
+/// Contract size of a derivative definition (1, 0.01 or 10, tied to the settlement selector so that
+/// it is part of the definition).
+pub fn contract_size_of(settle: u8) -> Decimal {
+    [Decimal::ONE, Decimal::new(1, 2), Decimal::from(10)][(settle as usize % ASSETS.len()) % 3]
+}
+
 pub fn asset_def(exchange: ExchangeId, idx: u8) -> Asset {
     let internal = ASSETS[idx as usize % ASSETS.len()];
     Asset::new(internal, asset_name_exchange(exchange, internal))
@@ -139,16 +145,16 @@ impl InstrumentDef {
         let kind = match self.kind {
             KindDef::Spot => InstrumentKind::Spot,
             KindDef::Perpetual { settle } => InstrumentKind::Perpetual(PerpetualContract {
-                contract_size: Decimal::ONE,
+                contract_size: contract_size_of(settle),
                 settlement_asset: asset_def(ex, settle),
             }),
             KindDef::Future { settle, expiry_day } => InstrumentKind::Future(FutureContract {
-                contract_size: Decimal::ONE,
+                contract_size: contract_size_of(settle),
                 settlement_asset: asset_def(ex, settle),
                 expiry: ts(T0_MS + 86_400_000 * (30 + expiry_day as i64)),
             }),
             KindDef::Option { settle, expiry_day, call, strike } => InstrumentKind::Option(OptionContract {
-                contract_size: Decimal::ONE,
+                contract_size: contract_size_of(settle),
                 settlement_asset: asset_def(ex, settle),
                 kind: if call { OptionKind::Call } else { OptionKind::Put },
                 exercise: OptionExercise::European,
